@@ -6,6 +6,7 @@ package svc
 import (
 	"context"
 	"errors"
+	"sync/atomic"
 	"fmt"
 	"os"
 	"path/filepath"
@@ -68,11 +69,28 @@ var ErrJobStuck = errors.New("job stuck")
 
 var worlds sync.Map // *manager.Manager -> *World
 
+// A manager starts background jobs from inside manager.New, before the harness knows its address.
+// Starts are serialised; while one is in progress a Point of an unknown manager that was not
+// retired before can only come from the manager being created and is adopted by the starting world.
+var (
+	startMu  sync.Mutex
+	adopting atomic.Pointer[World]
+	retired  sync.Map // *manager.Manager -> true
+)
+
 func init() {
 	verifhook.SetHandler(func(owner any, name string, args ...any) {
 		w, ok := worlds.Load(owner)
 		if !ok {
-			return // a manager that is not (or no longer) under harness control runs free
+			if _, gone := retired.Load(owner); gone {
+				return // a manager that is no longer under harness control runs free
+			}
+			a := adopting.Load()
+			if a == nil {
+				return
+			}
+			worlds.Store(owner, a)
+			w = a
 		}
 		w.(*World).point(name, args)
 	})
@@ -178,16 +196,25 @@ func NewWorldIn(dir, converterBin string, populate bool) (*World, error) {
 }
 
 func (w *World) start() error {
-	mgr, err := manager.New(w.PcapDir, w.IndexDir, w.SnapDir, w.StateDir, w.ConvDir, "")
-	if err != nil {
-		return err
-	}
 	w.mu.Lock()
-	w.Mgr = mgr
 	w.closed = false
 	w.parked = map[string]*Job{}
 	w.mu.Unlock()
-	worlds.Store(mgr, w)
+	startMu.Lock()
+	adopting.Store(w)
+	mgr, err := manager.New(w.PcapDir, w.IndexDir, w.SnapDir, w.StateDir, w.ConvDir, "")
+	if err == nil {
+		worlds.Store(mgr, w)
+		// the start-up closure of New has been received by the service loop but may still be
+		// running: a Status round trip makes sure every job it starts has been adopted
+		w.Mgr = mgr
+		mgr.Status()
+	}
+	adopting.Store(nil)
+	startMu.Unlock()
+	if err != nil {
+		return err
+	}
 	// New() posted its start-up closure before we were registered: jobs it started run free until
 	// their next point.  Settle picks them up through the Status flags.
 	return w.Settle()
@@ -304,6 +331,7 @@ func (w *World) stop() {
 	w.mu.Unlock()
 	mgr := w.Mgr
 	worlds.Delete(mgr)
+	retired.Store(mgr, true)
 	for _, v := range w.Views {
 		if !v.Released {
 			v.View.Release()
